@@ -153,6 +153,8 @@ class AirTouchSocket(Generic[comms.Hdr]):
 
         self.is_open = False
         self.is_connected = False
+        self._reset_in_progress = False
+        self._connect_in_progress = False
 
         self._background_tasks: set[asyncio.Task[Any]] = set()
 
@@ -292,15 +294,21 @@ class AirTouchSocket(Generic[comms.Hdr]):
         task.add_done_callback(discard_task)
 
     async def _connect(self) -> None:
-        if self.is_connected:
-            _LOGGER.debug("_connect ignored. Already connected")
+        if self.is_connected or self._connect_in_progress:
+            _LOGGER.debug("_connect ignored. Already connected or connecting")
             return
 
         _LOGGER.debug("Attempting to open connection to %s:%d", self.host, self.port)
         try:
-            self._reader, self._writer = await asyncio.open_connection(
-                host=self.host, port=self.port
-            )
+            # Only one connection attempt may be in flight at a time, otherwise
+            # two attempts could both succeed and one connection would leak.
+            self._connect_in_progress = True
+            try:
+                self._reader, self._writer = await asyncio.open_connection(
+                    host=self.host, port=self.port
+                )
+            finally:
+                self._connect_in_progress = False
 
             self.is_connected = True
             _LOGGER.debug("Connected to %s:%d", self.host, self.port)
@@ -344,7 +352,16 @@ class AirTouchSocket(Generic[comms.Hdr]):
         The connection is reset by disconnecting and re-connecting the
         underlying socket.
         """
-        await self._disconnect()
+        if self._reset_in_progress:
+            # A reset is already under way (e.g. read and write errors for the
+            # same lost connection). It will re-connect when it completes.
+            return
+
+        self._reset_in_progress = True
+        try:
+            await self._disconnect()
+        finally:
+            self._reset_in_progress = False
         self._schedule(self._connect())
 
     async def _read(self) -> None:
